@@ -540,6 +540,47 @@ def run(chk):
                   "returns its own argument `%s`: the caller's `var r := f(x); r += ..` modifies x" % (bad[0][0] if bad else ""))
     r9.require(40, "functions with a result")
 
+    # ------------------------------------------------------------------ R17.10 what is stored by reference is a copy, or an un-marked temporary
+    r10 = chk.rule("R17.10", "a value handed to a by-reference store (insert_ref_at, push_back_ref, push_front_ref) is clone(..) of the argument, or the argument itself on a path that "
+                             "first clears its is-a-temporary mark (x.reset_var_return_value())",
+                   "insert_at / push_back have the effect of the std container operation: the stored element is an ordinary value - assignable, and copied by the next `var y = v[i]`")
+    nref = 0
+    for d in defs:
+        params = {p_["name"] for p_ in d["params"]}
+        fnname = ("%s::" % d["cls"] if d.get("cls") else "") + d["name"] + "/%d" % len(d["params"])
+
+        def scan(stmts, cleared):
+            global_cleared = set(cleared)
+            for st in stmts:
+                for n in cp.walk(st) if st.get("k") not in ("if", "while", "for", "block") else []:
+                    pass
+                if st.get("k") == "block":
+                    yield from scan(st["s"], global_cleared)
+                    continue
+                if st.get("k") == "if":
+                    yield from scan([st["then"]], global_cleared)
+                    if st.get("else") is not None:
+                        yield from scan([st["else"]], global_cleared)
+                    continue
+                if st.get("k") in ("while", "for"):
+                    yield from scan([st["body"]], global_cleared)
+                    continue
+                for n in cp.walk(st):
+                    if n.get("k") == "call" and n["f"]["k"] == "member" and n["f"]["name"] == "reset_var_return_value" and n["f"]["obj"].get("k") == "id":
+                        global_cleared.add(n["f"]["obj"]["name"])
+                    if n.get("k") == "call" and ((n["f"]["k"] == "member" and "_ref" in n["f"]["name"]) or (n["f"]["k"] == "id" and "_ref" in n["f"]["name"])):
+                        for a in n["args"][-1:]:          # the stored value is the last argument (positions come first)
+                            if a.get("k") == "id" and a["name"] in params:
+                                yield (n, a["name"], a["name"] in global_cleared, st.get("line", d["line"]))
+                            elif a.get("k") == "call" and a["f"].get("k") == "id" and a["f"]["name"] == "clone":
+                                yield (n, "clone(..)", True, st.get("line", d["line"]))
+        for n, what, ok, line in scan(d["body"]["s"], set()):
+            nref += 1
+            r10.ob("prelude %s: %s stored by reference" % (fnname, what), ok, "%s:%d" % (relfile, first_line + line - 1), "prelude:" + fnname,
+                   "the parameter `%s` is stored without a copy and without clearing its is-a-temporary mark: the element stays marked, so `v[i] = x` is refused "
+                   "(\"cannot assign to temporary\") and `var y = v[i]` aliases the element instead of copying it" % what)
+    r10.require(1, "by-reference stores")
+
     # ------------------------------------------------------------------ R17.8 callback argument roles
     r8 = chk.rule("R17.8", "every application of a callback parameter - direct or through another library function the callback is handed to - passes the "
                            "same roles (element of which input, accumulator, result of another callback) in the same positions, and they are the roles of the reference table",
